@@ -1,8 +1,10 @@
 package bind
 
 import (
+	"flag"
 	"io"
 	"os"
+	"path/filepath"
 	"reflect"
 	"strings"
 
@@ -47,7 +49,7 @@ type sendSpec struct {
 // uploadFile writes a small file for AddFile(path); the rig removes it right after the request
 // (a file that lives as long as the process would be left behind when the process is killed).
 func (r *rig) uploadFile() string {
-	f, err := os.CreateTemp("", "vh-bind-upload-*.txt")
+	f, err := os.CreateTemp(uploadDir(), "vh-bind-upload-*.txt")
 	if err != nil {
 		return ""
 	}
@@ -55,6 +57,15 @@ func (r *rig) uploadFile() string {
 	_ = f.Close()
 	r.tmp = append(r.tmp, f.Name())
 	return f.Name()
+}
+
+// uploadDir: next to the result file, i.e. in the driver's work directory of this run, which the
+// driver clears; a process killed in mid-request then leaves nothing in the system temp directory.
+func uploadDir() string {
+	if f := flag.Lookup("out"); f != nil && f.Value.String() != "" {
+		return filepath.Dir(f.Value.String())
+	}
+	return ""
 }
 
 func (r *rig) removeUploads() {
